@@ -43,13 +43,17 @@ structure StartObs where
   rate limits as loaded (n, period in ns) -/
   late : List (List Limiter.Limit)
   timeoutMs : Nat
+  /-- start-up itself gave no answer at all within the observation time (the process was still
+  running, neither loaded nor rejected, when it was killed) -/
+  silent : Bool := false
   deriving Repr, Inhabited
 
 /-- The outcome class of an observation.  A first request that did not happen within the time-out is
 a hang unless the limiter's own first sleep (it sleeps BEFORE its first test, by design: `sleepMs`,
 proved ≤ 1 h and followed by an admission in Props/C09) covers the time-out (200 ms of slack). -/
 def classify (o : StartObs) : StartOutcome :=
-  if o.died then .died
+  if o.silent then .hung
+  else if o.died then .died
   else if o.panicked then .panicked
   else if o.rejected then .rejected
   else if o.loaded then
